@@ -123,6 +123,46 @@ def check_refuse_simple(ck, prog):
     ck.ob("C12-REFUSE", "simple_code", ok, common.where(f), why, key="REFUSE:simple_code")
 
 
+def check_bt_flush(ck, prog):
+    """Binary-tree match finders must not insert the last (nice_len - 1) positions before a sync flush into the tree:
+    their strings would be compared only up to the flush point, and when more input arrives the tree order is wrong.
+    They go through move_pending() instead and are re-run after the flush.  Hash chains have no such invariant."""
+    from sa import guard
+    ck.rule("C12-BTFLUSH", "bt2/bt3/bt4 finders defer to move_pending() during LZMA_SYNC_FLUSH when fewer than nice_len "
+                           "bytes are available; hash-chain finders do not need to")
+    for name in ("bt2", "bt3", "bt4"):
+        for kind in ("find", "skip"):
+            f = prog.fn("lzma_mf_%s_%s" % (name, kind), "lz_encoder_mf.c")
+            ck.saw_function(f)
+            gs = guard.find_cmp(f, "field:action", "enum:LZMA_SYNC_FLUSH")
+            ok = False
+            for g_ in gs:
+                blk = f.blocks[g_.bid]
+                t_succ = blk.succs[0] if g_.pass_label == "T" else blk.succs[1]
+                # the equal-edge leads to move_pending before any move_pos / tree function
+                seen, st = set(), [t_succ]
+                while st:
+                    x = st.pop()
+                    if x in seen or x is None:
+                        continue
+                    seen.add(x)
+                    calls_ = [c.get("fn") for e in f.blocks[x].elems if e for c in ex.calls(e, into_refs=False)]
+                    if "move_pending" in calls_:
+                        ok = True
+                        continue
+                    if any(c in ("move_pos", "bt_find_func", "bt_skip_func") for c in calls_):
+                        ok = False
+                        break
+                    st.extend(cfg.succs(f, x))
+            ck.ob("C12-BTFLUSH", f.name, ok, common.where(f),
+                  "%s: action == LZMA_SYNC_FLUSH leads to move_pending() without touching the tree" % f.name if ok else
+                  "%s(): no `mf->action == LZMA_SYNC_FLUSH` branch leading to move_pending(): during a sync flush the "
+                  "positions near the flush point are inserted into the binary tree with truncated comparisons, and "
+                  "matches found after the flush can be wrong (undecodable output)" % f.name,
+                  key="BTFLUSH:" + f.name)
+    ck.floor("C12-BTFLUSH", 6)
+
+
 def check_lzma2(ck, prog):
     ck.rule("C12-LZMA2", "LZMA2/LZ encoder flush details")
     f = prog.fn("lzma2_encode", "lzma2_encoder.c")
@@ -215,6 +255,27 @@ def check_upd(ck, prog):
     ck.ob("C12-UPD", "stream-update-states", ok, common.where(f),
           "whole chain replaced only when sequence <= SEQ_BLOCK_INIT; options-only update when <= SEQ_BLOCK_ENCODE",
           key="UPD:stream-states")
+    # a refused chain leaves the encoder usable: the "Block encoder is initialised" flag is cleared before the attempt
+    # (block_encoder_init() ends the old filter chain first, so after a failure there is no usable Block encoder)
+    callb = [(b, i) for b, i, e in f.iter_elems() for c in ex.calls(e, into_refs=False)
+             if c.get("fn") == "block_encoder_init"]
+    okf = False
+    if callb:
+        cb, ci = callb[0]
+
+        def via(bb, ii, ee):
+            if bb.id == cb.id and ii >= ci:
+                return False
+            return any(ex.show(l) == "coder->block_encoder_is_initialized" and r is not None and ex.is_const(r, 0)
+                       for (l, r, op, n) in ex.writes(ee))
+        okf = any(via(cb, j, cb.elems[j]) for j in range(0, ci) if cb.elems[j] is not None)
+        if not okf:
+            okf, _p = cfg.must_pass(f, [f.entry], [cb.id], via)
+    ck.ob("C12-UPD", "stream-update-flag", okf, common.where(f),
+          "block_encoder_is_initialized is cleared before block_encoder_init() is tried with the new chain" if okf else
+          "stream_encoder_update(): block_encoder_init() is tried with the new chain while block_encoder_is_initialized "
+          "may still be true: if the new chain is refused, the next lzma_code() uses a Block encoder whose filter chain "
+          "was already destroyed (NULL function pointer)", key="UPD:stream-flag")
     # the else branch: PROG_ERROR
     pe = any(ex.show(n) == "ret = LZMA_PROG_ERROR" for b, i, e in f.iter_elems()
              for (l, r, op, n) in ex.writes(e))
@@ -258,6 +319,7 @@ def run(ck):
     evaluate(ck, prog, "C12-FLOW", TABLE, floor=10)
     check_refuse_simple(ck, prog)
     check_lzma2(ck, prog)
+    check_bt_flush(ck, prog)
     ck.rule("C12-UPD", "update functions: allowed states and validation order")
     check_upd(ck, prog)
     ck.floor("C12-CONV", 3)
